@@ -67,7 +67,13 @@ func genValidHistory(t *rapid.T, o gwOpts, maxPayload int) []PktSpec {
 			for j := range b {
 				b[j] = seed + byte(j) + byte(j>>8)*3
 			}
-			h = append(h, PktSpec{K: "data", Payload: b})
+			d := PktSpec{K: "data", Payload: b}
+			if sz < 60000 && rapid.IntRange(0, 5).Draw(t, "overLong") == 0 {
+				// inner length beyond the packet: what the gateway relays for it must still not depend on what
+				// else arrived in the same read
+				d.Mal, d.MalN = "over", rapid.IntRange(0, 599).Draw(t, "overBy")
+			}
+			h = append(h, d)
 		}
 	}
 	if rapid.Bool().Draw(t, "close") {
@@ -102,6 +108,9 @@ func genC08(t *rapid.T) c08Case {
 	}
 	cutset := map[int]bool{}
 	c.Mode = rapid.SampledFrom([]string{"one-cut", "two-cut", "multi-cut", "coalesce", "free", "header-cut", "unframeable"}).Draw(t, "mode")
+	if c.Kind == "legacy" && rapid.IntRange(0, 6).Draw(t, "withHead") == 0 {
+		c.Mode = "head-coalesced" // legacy: the first chunk arrives in the same segment as the RDG_IN_DATA request head
+	}
 	pk := rapid.IntRange(0, len(units)-1).Draw(t, "pkt")
 	switch c.Mode {
 	case "one-cut", "two-cut", "multi-cut", "header-cut":
@@ -121,6 +130,10 @@ func genC08(t *rapid.T) c08Case {
 				cutset[rapid.IntRange(lo, hi).Draw(t, "cut")] = true
 			}
 		}
+	case "head-coalesced":
+		for _, b := range bounds {
+			cutset[b] = true
+		}
 	case "coalesce":
 		// group consecutive packets: keep each boundary with probability 1/3
 		for _, b := range bounds {
@@ -139,6 +152,11 @@ func genC08(t *rapid.T) c08Case {
 		}
 		c.Bad = pk
 		c.BadLen = uint32(rapid.IntRange(0, 7).Draw(t, "badlen"))
+		for i := range c.Hist { // this mode is judged by the reference model, which has no opinion on over-long inner lengths
+			if c.Hist[i].K == "data" {
+				c.Hist[i].Mal, c.Hist[i].MalN = "", 0
+			}
+		}
 	}
 	if c.Kind == "ws" && c.Mode != "unframeable" && rapid.IntRange(0, 3).Draw(t, "emptyUnits") == 0 {
 		c.Empty = rapid.SliceOfN(rapid.IntRange(0, 12), 1, 3).Draw(t, "emptyAt")
@@ -200,8 +218,22 @@ func firstDiff(a, b []byte) int {
 
 // sendSegmented delivers each unit as its own transport read: the gateway has consumed unit i before unit
 // i+1 is written.
-func sendSegmented(kind string, tgt gwc.Target, units [][]byte) sess.Result {
-	c, err := gwc.Dial(kind, tgt, sess.NewConnID())
+func sendSegmented(kind string, tgt gwc.Target, units [][]byte, firstWithHead bool) sess.Result {
+	var c gwc.Conn
+	var err error
+	if firstWithHead && kind == "legacy" && len(units) > 0 && len(units[0]) > 0 && len(units[0]) < 3000 {
+		id := sess.NewConnID()
+		var l *gwc.Legacy
+		if l, err = gwc.OpenOut(tgt, id); err == nil {
+			l.FirstWithHead = units[0]
+			if err = l.OpenIn(tgt, id); err != nil {
+				l.Close()
+			}
+			c, units = l, units[1:]
+		}
+	} else {
+		c, err = gwc.Dial(kind, tgt, sess.NewConnID())
+	}
 	if err != nil {
 		return sess.Result{Kind: kind, OpenStatus: -1, OpenErr: err.Error()}
 	}
@@ -251,7 +283,7 @@ func segClass(c c08Case, bounds []int) (nt bool, cl []string) {
 	if len(c.Empty) > 0 {
 		cl = append(cl, "empty-units")
 	}
-	return inner > 0 || missing > 0 || c.Bad >= 0 || len(c.Empty) > 0, cl
+	return inner > 0 || missing > 0 || c.Bad >= 0 || len(c.Empty) > 0 || c.Mode == "head-coalesced", cl
 }
 
 func runC08(c c08Case) *Violation {
@@ -312,7 +344,7 @@ func runC08(c c08Case) *Violation {
 		}
 		w := W()
 		s := w.snap()
-		r := sendSegmented(c.Kind, tgt, units)
+		r := sendSegmented(c.Kind, tgt, units, c.Mode == "head-coalesced")
 		var seg model.Obs
 		resps, err := sess.Decode(r.Pkts)
 		seg.Accepts, seg.Bytes = w.observe(s, channelSuccesses(resps))
